@@ -126,11 +126,19 @@ def lazy_publication(rep: Report, prog: Program, rid: str, classes: Tuple[str, .
 
         def self_attr(e: ast.AST) -> Optional[str]:
             return e.attr if isinstance(e, ast.Attribute) and isinstance(e.value, ast.Name) and e.value.id == me else None
+        # a local that only names an attribute of the object (`ln_base = self._ln_base`) stands for it in the guard
+        alias: Dict[str, str] = {}
+        for st in ast.walk(fi.node):
+            if isinstance(st, ast.Assign) and len(st.targets) == 1 and isinstance(st.targets[0], ast.Name) and self_attr(st.value):
+                alias[st.targets[0].id] = self_attr(st.value)  # type: ignore[assignment]
         for node in ast.walk(fi.node):
             if not isinstance(node, ast.If):
                 continue
             guards = set()
             for x in ast.walk(node.test):
+                if isinstance(x, ast.Compare) and len(x.ops) == 1 and isinstance(x.ops[0], (ast.Is, ast.Eq)) and isinstance(x.left, ast.Name) and x.left.id in alias \
+                        and isinstance(x.comparators[0], ast.Constant) and x.comparators[0].value is None:
+                    guards.add(alias[x.left.id])
                 if isinstance(x, ast.Compare) and len(x.ops) == 1 and isinstance(x.ops[0], (ast.Is, ast.Eq)) and self_attr(x.left) \
                         and isinstance(x.comparators[0], ast.Constant) and x.comparators[0].value is None:
                     guards.add(self_attr(x.left))
